@@ -38,6 +38,8 @@ CONSTANTS
     RandomSelect,  \* deviation D2
     LockInOnce,    \* deviation D12 (pinned order)
     MaxFaults,     \* bound on Kill actions
+    Kinds,         \* subset of {"eof", "silent", "reset"}
+    OrderedStart,  \* TRUE: calls start in the order 1, 2, ... (symmetry breaking, leg A only)
     CancelCalls,   \* set of calls whose context may be cancelled
     EnvTClose,     \* transport Close may be called
     Coarse,        \* TRUE: invisible local steps run at once (hand-made partial-order reduction, leg A only)
@@ -65,7 +67,7 @@ VARIABLES
     \* dialers
     nd, dl, spawn,
     \* env
-    faults, panic, hist
+    panic, hist
 
 callVars == <<pc, att, isNew, cur, slot, ctxDone, res, mydial>>
 chistVars == <<writes, used, delivered, failOK, startedClosed, val, dialedFor, wok, shared>>
@@ -73,7 +75,7 @@ connVars == <<health, closed, once, waiting, armed, srvq, owe>>
 rdrVars == <<rpc, rmsg, rw>>
 tVars == <<tclosed, tm, conns, idle, tctx, cl>>
 dialVars == <<nd, dl, spawn>>
-vars == <<callVars, chistVars, connVars, rdrVars, tVars, dialVars, faults, panic, hist>>
+vars == <<callVars, chistVars, connVars, rdrVars, tVars, dialVars, panic, hist>>
 
 H(e) == hist' = IF WithHist THEN Append(hist, e) ELSE hist
 NoH == UNCHANGED hist
@@ -94,7 +96,7 @@ Init ==
     /\ rpc = [x \in ConnIds |-> "off"] /\ rmsg = [x \in ConnIds |-> None] /\ rw = [x \in ConnIds |-> None]
     /\ tclosed = FALSE /\ tm = "free" /\ conns = {} /\ idle = {} /\ tctx = FALSE /\ cl = "idle"
     /\ nd = 0 /\ dl = [d \in ConnIds |-> [owner |-> 0, st |-> "unused"]] /\ spawn = {}
-    /\ faults = 0 /\ panic = FALSE /\ hist = <<>>
+    /\ panic = FALSE /\ hist = <<>>
 
 Tok(c) == <<c, att[c]>>
 
@@ -113,10 +115,11 @@ MyTurnR(x) == ~Coarse \/ (UrgentCalls = {} /\ x \in UrgentRdrs /\ \A y \in Urgen
 Start(c) ==
     /\ Calm
     /\ pc[c] = "na" /\ pc' = [pc EXCEPT ![c] = "get"]
+    /\ OrderedStart => \A d \in Calls : d < c => pc[d] # "na"
     /\ startedClosed' = [startedClosed EXCEPT ![c] = (cl = "done")]
     /\ H([a |-> "Start", c |-> c])
     /\ UNCHANGED <<att, isNew, cur, slot, ctxDone, res, mydial, writes, used, delivered, failOK, val, dialedFor, wok, shared,
-                   connVars, rdrVars, tVars, dialVars, faults, panic>>
+                   connVars, rdrVars, tVars, dialVars, panic>>
 
 \* result classes: "ok", "ctx", "tclosed", "other"
 Finish(c, r) ==
@@ -136,7 +139,8 @@ GetIdle(c) ==
            THEN /\ \E x \in idle :
                      /\ cur' = [cur EXCEPT ![c] = x] /\ idle' = idle \ {x}
                      \* another call whose reply is still being handed over now shares its connection
-                     /\ shared' = [d \in Calls |-> shared[d] \/ (d # c /\ cur[d] = x /\ pc[d] \in {"writing", "wait"})]
+                     /\ LET others == {d \in Calls : d # c /\ cur[d] = x /\ pc[d] \in {"writing", "wait", "cweA", "cweB"}} IN
+                          shared' = [d \in Calls |-> shared[d] \/ d \in others \/ (d = c /\ others # {})]
                 /\ isNew' = [isNew EXCEPT ![c] = FALSE]
                 /\ pc' = [pc EXCEPT ![c] = "install"]
                 /\ UNCHANGED <<res, slot, mydial, spawn, failOK, dialedFor>>
@@ -149,7 +153,7 @@ GetIdle(c) ==
                 /\ UNCHANGED <<res, slot, idle, failOK, shared>>
     /\ NoH
     /\ UNCHANGED <<ctxDone, writes, used, delivered, startedClosed, val, wok, connVars, rdrVars,
-                   tclosed, tm, conns, tctx, cl, nd, dl, faults, panic>>
+                   tclosed, tm, conns, tctx, cl, nd, dl, panic>>
 
 \* select in getNewConn: ctx arm / transport ctx arm (both return directly = failure of a new conn)
 LeaveCtx(c) ==
@@ -158,7 +162,7 @@ LeaveCtx(c) ==
     /\ Finish(c, "ctx") /\ failOK' = [failOK EXCEPT ![c] = TRUE]
     /\ NoH
     /\ UNCHANGED <<att, isNew, cur, slot, ctxDone, mydial, writes, used, delivered, startedClosed, val, dialedFor, wok, shared,
-                   connVars, rdrVars, tVars, dialVars, faults, panic>>
+                   connVars, rdrVars, tVars, dialVars, panic>>
 
 LeaveClosed(c) ==
     /\ Calm
@@ -166,7 +170,7 @@ LeaveClosed(c) ==
     /\ Finish(c, "tclosed") /\ failOK' = [failOK EXCEPT ![c] = TRUE]
     /\ NoH
     /\ UNCHANGED <<att, isNew, cur, slot, ctxDone, mydial, writes, used, delivered, startedClosed, val, dialedFor, wok, shared,
-                   connVars, rdrVars, tVars, dialVars, faults, panic>>
+                   connVars, rdrVars, tVars, dialVars, panic>>
 
 Install(c) ==
     /\ MyTurnC(c)
@@ -175,12 +179,11 @@ Install(c) ==
          /\ panic' = (panic \/ waiting[x] # None)
          /\ waiting' = [waiting EXCEPT ![x] = Tok(c)]
     /\ slot' = [slot EXCEPT ![c] = None]
-    /\ delivered' = [delivered EXCEPT ![c] = FALSE] /\ wok' = [wok EXCEPT ![c] = FALSE]
-    /\ shared' = [shared EXCEPT ![c] = FALSE]
+    /\ delivered' = [delivered EXCEPT ![c] = FALSE] /\ wok' = [wok EXCEPT ![c] = FALSE] /\ UNCHANGED shared
     /\ pc' = [pc EXCEPT ![c] = "arm"]
     /\ NoH
     /\ UNCHANGED <<att, isNew, cur, ctxDone, res, mydial, writes, used, failOK, startedClosed, val, dialedFor,
-                   health, closed, once, armed, srvq, owe, rdrVars, tVars, dialVars, faults>>
+                   health, closed, once, armed, srvq, owe, rdrVars, tVars, dialVars>>
 
 ArmQ(c) ==
     /\ MyTurnC(c)
@@ -189,7 +192,7 @@ ArmQ(c) ==
     /\ pc' = [pc EXCEPT ![c] = "write"]
     /\ H([a |-> "SetDeadline", x |-> cur[c], k |-> "query"])
     /\ UNCHANGED <<att, isNew, cur, slot, ctxDone, res, mydial, chistVars,
-                   health, closed, once, waiting, srvq, owe, rdrVars, tVars, dialVars, faults, panic>>
+                   health, closed, once, waiting, srvq, owe, rdrVars, tVars, dialVars, panic>>
 
 \* Write is called: the bytes reach a healthy server now (it may answer before Write returns)
 WriteReq(c) ==
@@ -204,21 +207,21 @@ WriteReq(c) ==
          /\ H([a |-> "WriteReq", x |-> x, c |-> c])
     /\ pc' = [pc EXCEPT ![c] = "writing"]
     /\ UNCHANGED <<att, isNew, cur, slot, ctxDone, res, mydial, delivered, failOK, startedClosed, val, dialedFor, wok, shared,
-                   health, closed, once, waiting, armed, rdrVars, tVars, dialVars, faults>>
+                   health, closed, once, waiting, armed, rdrVars, tVars, dialVars>>
 
 WriteOk(c) ==
     /\ Calm
     /\ pc[c] = "writing" /\ ~closed[cur[c]] /\ health[cur[c]] \in {"ok", "silent", "eof"}
     /\ pc' = [pc EXCEPT ![c] = "wait"] /\ wok' = [wok EXCEPT ![c] = TRUE] /\ UNCHANGED shared
     /\ H([a |-> "WriteRet", x |-> cur[c], c |-> c, ok |-> TRUE])
-    /\ UNCHANGED <<att, isNew, cur, slot, ctxDone, res, mydial, writes, used, delivered, failOK, startedClosed, val, dialedFor, connVars, rdrVars, tVars, dialVars, faults, panic>>
+    /\ UNCHANGED <<att, isNew, cur, slot, ctxDone, res, mydial, writes, used, delivered, failOK, startedClosed, val, dialedFor, connVars, rdrVars, tVars, dialVars, panic>>
 
 WriteErr(c) ==
     /\ Calm
     /\ pc[c] = "writing" /\ (closed[cur[c]] \/ health[cur[c]] \in {"silent", "eof", "reset"})
     /\ pc' = [pc EXCEPT ![c] = "cweA"]
     /\ H([a |-> "WriteRet", x |-> cur[c], c |-> c, ok |-> FALSE])
-    /\ UNCHANGED <<att, isNew, cur, slot, ctxDone, res, mydial, chistVars, connVars, rdrVars, tVars, dialVars, faults, panic>>
+    /\ UNCHANGED <<att, isNew, cur, slot, ctxDone, res, mydial, chistVars, connVars, rdrVars, tVars, dialVars, panic>>
 
 \* final select
 TakeReply(c) ==
@@ -227,7 +230,7 @@ TakeReply(c) ==
     /\ Finish(c, "ok") /\ val' = [val EXCEPT ![c] = slot[c]]
     /\ NoH
     /\ UNCHANGED <<att, isNew, cur, slot, ctxDone, mydial, writes, used, delivered, failOK, startedClosed, dialedFor, wok, shared,
-                   connVars, rdrVars, tVars, dialVars, faults, panic>>
+                   connVars, rdrVars, tVars, dialVars, panic>>
 
 SeeClose(c) ==
     /\ Calm
@@ -236,7 +239,7 @@ SeeClose(c) ==
     /\ pc' = [pc EXCEPT ![c] = "decide"]
     /\ res' = [res EXCEPT ![c] = "other"]
     /\ NoH
-    /\ UNCHANGED <<att, isNew, cur, slot, ctxDone, mydial, chistVars, connVars, rdrVars, tVars, dialVars, faults, panic>>
+    /\ UNCHANGED <<att, isNew, cur, slot, ctxDone, mydial, chistVars, connVars, rdrVars, tVars, dialVars, panic>>
 
 SeeCtx(c) ==
     /\ Calm
@@ -244,7 +247,7 @@ SeeCtx(c) ==
     /\ pc' = [pc EXCEPT ![c] = "decide"]
     /\ res' = [res EXCEPT ![c] = "ctx"]
     /\ NoH
-    /\ UNCHANGED <<att, isNew, cur, slot, ctxDone, mydial, chistVars, connVars, rdrVars, tVars, dialVars, faults, panic>>
+    /\ UNCHANGED <<att, isNew, cur, slot, ctxDone, mydial, chistVars, connVars, rdrVars, tVars, dialVars, panic>>
 
 MayRetry(c) == IF Policy = "code" THEN ~isNew[c] /\ att[c] <= MaxRetry + 1 ELSE att[c] <= 6
 MayFail(c) == IF Policy = "code" THEN ~(~isNew[c] /\ att[c] <= MaxRetry + 1) ELSE TRUE
@@ -254,7 +257,7 @@ Retry(c) ==
     /\ pc[c] = "decide" /\ MayRetry(c)
     /\ pc' = [pc EXCEPT ![c] = "get"] /\ res' = [res EXCEPT ![c] = "na"]
     /\ NoH
-    /\ UNCHANGED <<att, isNew, cur, slot, ctxDone, mydial, chistVars, connVars, rdrVars, tVars, dialVars, faults, panic>>
+    /\ UNCHANGED <<att, isNew, cur, slot, ctxDone, mydial, chistVars, connVars, rdrVars, tVars, dialVars, panic>>
 
 Fail(c) ==
     /\ MyTurnC(c)
@@ -263,7 +266,7 @@ Fail(c) ==
     /\ failOK' = [failOK EXCEPT ![c] = FailNowOK(c)]
     /\ NoH
     /\ UNCHANGED <<att, isNew, cur, slot, ctxDone, res, mydial, writes, used, delivered, startedClosed, val, dialedFor, wok, shared,
-                   connVars, rdrVars, tVars, dialVars, faults, panic>>
+                   connVars, rdrVars, tVars, dialVars, panic>>
 
 ------------------------------------------------------------------------------
 \* closeWithErr(x) by actor a (a call c closing cur[c], or the reader of x)
@@ -301,7 +304,7 @@ CallCweA(c) ==
     /\ pc' = [pc EXCEPT ![c] = "cweB"]
     /\ NoH
     /\ UNCHANGED <<att, isNew, cur, slot, ctxDone, res, mydial, chistVars,
-                   health, closed, waiting, armed, srvq, owe, rdrVars, tclosed, tm, tctx, cl, dialVars, faults, panic>>
+                   health, closed, waiting, armed, srvq, owe, rdrVars, tclosed, tm, tctx, cl, dialVars, panic>>
 
 CallCweB(c) ==
     /\ Calm
@@ -309,7 +312,7 @@ CallCweB(c) ==
     /\ pc' = [pc EXCEPT ![c] = "decide"] /\ res' = [res EXCEPT ![c] = "other"]
     /\ IF CweWillClose(c, cur[c]) THEN H([a |-> "CloseReq", x |-> cur[c]]) ELSE NoH
     /\ UNCHANGED <<att, isNew, cur, slot, ctxDone, mydial, chistVars,
-                   health, waiting, armed, srvq, owe, rdrVars, tclosed, tm, tctx, cl, dialVars, faults, panic>>
+                   health, waiting, armed, srvq, owe, rdrVars, tclosed, tm, tctx, cl, dialVars, panic>>
 
 RdrCweA(x) ==
     /\ Calm
@@ -317,7 +320,7 @@ RdrCweA(x) ==
     /\ rpc' = [rpc EXCEPT ![x] = "cweB"]
     /\ NoH
     /\ UNCHANGED <<callVars, chistVars, health, closed, waiting, armed, srvq, owe, rmsg, rw,
-                   tclosed, tm, tctx, cl, dialVars, faults, panic>>
+                   tclosed, tm, tctx, cl, dialVars, panic>>
 
 RdrCweB(x) ==
     /\ Calm
@@ -325,7 +328,7 @@ RdrCweB(x) ==
     /\ rpc' = [rpc EXCEPT ![x] = "dead"]
     /\ IF CweWillClose(RDR, x) THEN H([a |-> "CloseReq", x |-> x]) ELSE NoH
     /\ UNCHANGED <<callVars, chistVars, health, waiting, armed, srvq, owe, rmsg, rw,
-                   tclosed, tm, tctx, cl, dialVars, faults, panic>>
+                   tclosed, tm, tctx, cl, dialVars, panic>>
 
 ------------------------------------------------------------------------------
 \* reader
@@ -340,7 +343,7 @@ ServerReply(x) ==
          delivered' = [delivered EXCEPT ![c] = @ \/ (srvq[x] = Tok(c) /\ pc[c] \in {"writing", "wait"} /\ cur[c] = x)]
     /\ H([a |-> "ReadRet", x |-> x, k |-> "reply", c |-> srvq[x][1], n |-> srvq[x][2]])
     /\ UNCHANGED <<callVars, writes, used, failOK, startedClosed, val, dialedFor, wok, shared,
-                   health, closed, once, waiting, armed, rw, tVars, dialVars, faults, panic>>
+                   health, closed, once, waiting, armed, rw, tVars, dialVars, panic>>
 
 Take(x) ==
     /\ MyTurnR(x)
@@ -348,7 +351,7 @@ Take(x) ==
     /\ rw' = [rw EXCEPT ![x] = waiting[x]] /\ waiting' = [waiting EXCEPT ![x] = None]
     /\ rpc' = [rpc EXCEPT ![x] = IF waiting[x] = None THEN "cweA" ELSE "armIdle"]
     /\ NoH
-    /\ UNCHANGED <<callVars, chistVars, health, closed, once, armed, srvq, owe, rmsg, tVars, dialVars, faults, panic>>
+    /\ UNCHANGED <<callVars, chistVars, health, closed, once, armed, srvq, owe, rmsg, tVars, dialVars, panic>>
 
 ArmIdle(x) ==
     /\ MyTurnR(x)
@@ -356,7 +359,7 @@ ArmIdle(x) ==
     /\ armed' = [armed EXCEPT ![x] = "idle"]
     /\ rpc' = [rpc EXCEPT ![x] = "setIdle"]
     /\ H([a |-> "SetReadDeadline", x |-> x, k |-> "idle"])
-    /\ UNCHANGED <<callVars, chistVars, health, closed, once, waiting, srvq, owe, rmsg, rw, tVars, dialVars, faults, panic>>
+    /\ UNCHANGED <<callVars, chistVars, health, closed, once, waiting, srvq, owe, rmsg, rw, tVars, dialVars, panic>>
 
 SetIdleEff(x) == idle' = IF ~tclosed /\ x \in conns THEN idle \cup {x} ELSE idle
 
@@ -366,7 +369,7 @@ SetIdle(x) ==
     /\ SetIdleEff(x)
     /\ rpc' = [rpc EXCEPT ![x] = "hand"]
     /\ NoH
-    /\ UNCHANGED <<callVars, chistVars, connVars, rmsg, rw, tclosed, tm, conns, tctx, cl, dialVars, faults, panic>>
+    /\ UNCHANGED <<callVars, chistVars, connVars, rmsg, rw, tclosed, tm, conns, tctx, cl, dialVars, panic>>
 
 Hand(x) ==
     /\ Calm
@@ -376,7 +379,7 @@ Hand(x) ==
                    THEN [slot EXCEPT ![c] = rmsg[x]] ELSE slot
     /\ rpc' = [rpc EXCEPT ![x] = "reading"]
     /\ NoH
-    /\ UNCHANGED <<pc, att, isNew, cur, ctxDone, res, mydial, chistVars, connVars, rmsg, rw, tVars, dialVars, faults, panic>>
+    /\ UNCHANGED <<pc, att, isNew, cur, ctxDone, res, mydial, chistVars, connVars, rmsg, rw, tVars, dialVars, panic>>
 
 \* k: "err" (EOF, reset, short frame, garbage length ...) needs a dead peer or a locally closed conn;
 \*    "timeout" needs an armed deadline (virtual time: any armed deadline may expire)
@@ -387,7 +390,7 @@ ReadFail(x, k) ==
        \/ k = "timeout" /\ armed[x] # "none" /\ ~closed[x]
     /\ rpc' = [rpc EXCEPT ![x] = "cweA"]
     /\ H([a |-> "ReadRet", x |-> x, k |-> k, armed |-> armed[x]])
-    /\ UNCHANGED <<callVars, chistVars, connVars, rmsg, rw, tVars, dialVars, faults, panic>>
+    /\ UNCHANGED <<callVars, chistVars, connVars, rmsg, rw, tVars, dialVars, panic>>
 
 ------------------------------------------------------------------------------
 \* dial goroutine of getNewConn
@@ -399,7 +402,7 @@ DialInvoke(c) ==
     /\ dl' = [dl EXCEPT ![nd + 1] = [owner |-> c, st |-> "dialing"]]
     /\ mydial' = IF pc[c] = "dialWait" /\ mydial[c] = 0 THEN [mydial EXCEPT ![c] = nd + 1] ELSE mydial
     /\ H([a |-> "Dial", d |-> nd + 1])
-    /\ UNCHANGED <<pc, att, isNew, cur, slot, ctxDone, res, chistVars, connVars, rdrVars, tVars, faults, panic>>
+    /\ UNCHANGED <<pc, att, isNew, cur, slot, ctxDone, res, chistVars, connVars, rdrVars, tVars, panic>>
 
 DialOk(d) ==
     /\ Calm
@@ -407,7 +410,7 @@ DialOk(d) ==
     /\ dl' = [dl EXCEPT ![d].st = "ok"]
     /\ health' = [health EXCEPT ![d] = "ok"]
     /\ H([a |-> "DialRet", d |-> d, ok |-> TRUE])
-    /\ UNCHANGED <<callVars, chistVars, closed, once, waiting, armed, srvq, owe, rdrVars, tVars, nd, spawn, faults, panic>>
+    /\ UNCHANGED <<callVars, chistVars, closed, once, waiting, armed, srvq, owe, rdrVars, tVars, nd, spawn, panic>>
 
 \* dial error, or a hanging dial ended by the dial timeout / the transport's context
 DialErr(d) ==
@@ -415,7 +418,7 @@ DialErr(d) ==
     /\ dl[d].st = "dialing"
     /\ dl' = [dl EXCEPT ![d].st = "offerErr"]
     /\ H([a |-> "DialRet", d |-> d, ok |-> FALSE])
-    /\ UNCHANGED <<callVars, chistVars, connVars, rdrVars, tVars, nd, spawn, faults, panic>>
+    /\ UNCHANGED <<callVars, chistVars, connVars, rdrVars, tVars, nd, spawn, panic>>
 
 Register(d) ==
     /\ Calm
@@ -431,7 +434,7 @@ Register(d) ==
               /\ NoH
               /\ UNCHANGED <<closed, once>>
     /\ UNCHANGED <<callVars, chistVars, health, waiting, armed, srvq, owe, rmsg, rw,
-                   tclosed, tm, idle, tctx, cl, nd, spawn, faults, panic>>
+                   tclosed, tm, idle, tctx, cl, nd, spawn, panic>>
 
 OwnerWaits(d) == LET c == dl[d].owner IN pc[c] = "dialWait" /\ mydial[c] = d
 
@@ -448,7 +451,7 @@ HandOver(d) ==
     /\ dl' = [dl EXCEPT ![d].st = "done"]
     /\ NoH
     /\ UNCHANGED <<att, isNew, slot, ctxDone, mydial, writes, used, delivered, startedClosed, val, dialedFor, wok, shared,
-                   connVars, rdrVars, tVars, nd, spawn, faults, panic>>
+                   connVars, rdrVars, tVars, nd, spawn, panic>>
 
 \* callCtx.Done arm: the caller has gone (or its ctx is done): a dialled connection goes to the idle pool
 Abandon(d) ==
@@ -458,7 +461,7 @@ Abandon(d) ==
     /\ IF dl[d].st = "offer" THEN tm = "free" /\ SetIdleEff(d) ELSE UNCHANGED idle
     /\ dl' = [dl EXCEPT ![d].st = "done"]
     /\ NoH
-    /\ UNCHANGED <<callVars, chistVars, connVars, rdrVars, tclosed, tm, conns, tctx, cl, nd, spawn, faults, panic>>
+    /\ UNCHANGED <<callVars, chistVars, connVars, rdrVars, tclosed, tm, conns, tctx, cl, nd, spawn, panic>>
 
 ------------------------------------------------------------------------------
 \* transport Close (holds t.m from TCloseLock to TCloseEnd)
@@ -467,14 +470,14 @@ TCloseStart ==
     /\ Calm
     /\ EnvTClose /\ cl = "idle" /\ cl' = "start"
     /\ H([a |-> "TClose"])
-    /\ UNCHANGED <<callVars, chistVars, connVars, rdrVars, tclosed, tm, conns, idle, tctx, dialVars, faults, panic>>
+    /\ UNCHANGED <<callVars, chistVars, connVars, rdrVars, tclosed, tm, conns, idle, tctx, dialVars, panic>>
 
 TCloseLock ==
     /\ Calm
     /\ cl = "start" /\ tm = "free"
     /\ tclosed' = TRUE /\ tm' = "closer" /\ cl' = "locked"
     /\ NoH
-    /\ UNCHANGED <<callVars, chistVars, connVars, rdrVars, conns, idle, tctx, dialVars, faults, panic>>
+    /\ UNCHANGED <<callVars, chistVars, connVars, rdrVars, conns, idle, tctx, dialVars, panic>>
 
 \* one iteration: delete from both maps, closeWithErrByTransport (closeOnce.Do: blocks while another actor is inside)
 TCloseOne(x) ==
@@ -485,23 +488,23 @@ TCloseOne(x) ==
     /\ closed' = [closed EXCEPT ![x] = TRUE] /\ once' = [once EXCEPT ![x] = DONE]
     /\ IF once[x] = FREE THEN H([a |-> "CloseReq", x |-> x]) ELSE NoH
     /\ UNCHANGED <<callVars, chistVars, health, waiting, armed, srvq, owe, rdrVars, tclosed, tm, tctx, cl,
-                   dialVars, faults, panic>>
+                   dialVars, panic>>
 
 TCloseEnd ==
     /\ Calm
     /\ cl = "locked" /\ conns = {}
     /\ tctx' = TRUE /\ tm' = "free" /\ cl' = "done"
     /\ H([a |-> "TCloseRet"])
-    /\ UNCHANGED <<callVars, chistVars, connVars, rdrVars, tclosed, conns, idle, dialVars, faults, panic>>
+    /\ UNCHANGED <<callVars, chistVars, connVars, rdrVars, tclosed, conns, idle, dialVars, panic>>
 
 ------------------------------------------------------------------------------
 \* environment
 
 Kill(x, k) ==
     /\ Calm
-    /\ health[x] = "ok" /\ faults < MaxFaults /\ ~closed[x]
+    /\ health[x] = "ok" /\ ~closed[x]
+    /\ Cardinality({y \in ConnIds : health[y] \notin {"na", "ok"}}) < MaxFaults
     /\ health' = [health EXCEPT ![x] = k]
-    /\ faults' = faults + 1
     /\ H([a |-> "Kill", x |-> x, k |-> k])
     /\ UNCHANGED <<callVars, chistVars, closed, once, waiting, armed, srvq, owe, rdrVars, tVars, dialVars, panic>>
 
@@ -510,7 +513,7 @@ Cancel(c) ==
     /\ c \in CancelCalls /\ ~ctxDone[c] /\ pc[c] \notin {"na", "done"}
     /\ ctxDone' = [ctxDone EXCEPT ![c] = TRUE]
     /\ H([a |-> "Cancel", c |-> c])
-    /\ UNCHANGED <<pc, att, isNew, cur, slot, res, mydial, chistVars, connVars, rdrVars, tVars, dialVars, faults, panic>>
+    /\ UNCHANGED <<pc, att, isNew, cur, slot, res, mydial, chistVars, connVars, rdrVars, tVars, dialVars, panic>>
 
 ------------------------------------------------------------------------------
 CallStep(c) ==
@@ -530,7 +533,7 @@ ReadEnds(x) == ReadFail(x, "err") \/ ReadFail(x, "timeout")
 Next ==
     \/ \E c \in Calls : CallStep(c) \/ WriteOk(c) \/ WriteErr(c) \/ Cancel(c) \/ DialInvoke(c)
     \/ \E x \in ConnIds : RdrStep(x) \/ ServerReply(x) \/ ReadEnds(x) \/ DialStep(x) \/ DialRet(x)
-    \/ \E x \in ConnIds, k \in {"eof", "silent", "reset"} : Kill(x, k)
+    \/ \E x \in ConnIds, k \in Kinds : Kill(x, k)
     \/ TCloseStart \/ CloserStep
 
 Spec == Init /\ [][Next]_vars
@@ -597,5 +600,5 @@ Quiescent ==
 Emit == (Quiescent /\ \A c \in Calls : pc[c] = "done") =>
     PrintT(<<"BEH", ToJson([steps |-> hist, res |-> res, att |-> att])>>)
 
-ViewNoHist == <<callVars, chistVars, connVars, rdrVars, tVars, dialVars, faults, panic>>
+ViewNoHist == <<callVars, chistVars, connVars, rdrVars, tVars, dialVars, panic>>
 =============================================================================
